@@ -186,6 +186,8 @@ class LuaTemplates:
         if k in ("ForLoop", "While", "Loop"):
             body = self.events(n["body"], refs, env)
             return [("repeat", body)] if body else []
+        if k == "Try":
+            return self.events(n["e"], refs, env)
         if k in ("Assign", "AssignOp", "Lit", "Path"):
             return []
         if k == "Call":
